@@ -195,6 +195,8 @@ def ghostBlame (iev : IEv) (ds : List Delivery) (outcome : Outcome) (what : Stri
   (if refused && !departure && foreignAttempt then [("C05", "refused-request-changed-state")] else []) ++
   (if what == "assets" && (match iev with | .handle _ (some (.assetAdd ..)) _ => true | _ => false) then
     [("C05", "asset-instance-not-where-its-owner-put-it")] else []) ++
+  (if foreignAttempt && !departure && (what == "ents" || what == "assets") then [("C05", "foreign-request-changed-state")] else []) ++
+  (if what == "parts" then [("C08", "ghost-participant")] else []) ++
   (if departure then [("C06", "departure-state-differs")] else []) ++
   (if what == "subs" then [("C13", "subscriptions-differ")] else []) ++
   (if what == "comps" || what == "types" then [("C12", "component-store-differs")] else []) ++
@@ -327,7 +329,8 @@ def processConc (h : Hist) (b : Block) (otoks : List String) : Hist :=
   match otoks with
   | "deadlock" :: rest =>
     { h with blind := true, diff := some s!"event={evNo} kind=deadlock topic=conc :: {b.ev} outcomes {rest}",
-             concViol := h.concViol.push ("C09", "deadlock", (" ".intercalate b.ev) ++ " :: tasks " ++ " ".intercalate rest) }
+             concViol := (h.concViol.push ("C09", "deadlock", (" ".intercalate b.ev) ++ " :: tasks " ++ " ".intercalate rest)).push
+               ("C08", "request-never-completes", (" ".intercalate b.ev) ++ " :: the handlers wait for each other for ever: " ++ " ".intercalate rest) }
   | _ =>
   -- C07 at the quiescent moment after the block, whatever else is found out about it
   let cm : Option (List (Nat × Nat)) := b.quies.map fun (q : List (Nat × Nat × Bool) × List (Nat × Nat)) =>
